@@ -203,6 +203,8 @@ def judge(case, obs):
         counters = None
     if end == 'hang':
         return ('stream-never-ends', None)
+    if obs.get('live_consumer_released_by_terminate') is False:
+        return ('waiting-consumer-not-released-when-terminate-returned', None)
     if end not in ('empty', 'marker', 'eof'):
         return ('stream-end-%s' % end, None)
     if vals != exp[:len(vals)]:
